@@ -3,8 +3,26 @@
 // Added to package replica by the E-D verification overlay (never present in /repo).
 package replica
 
+import "github.com/openebs/jiva/types"
+
 // VerifEdRevisionCache returns the in-memory copy of the revision counter (no lock taken: called at quiescence).
 func VerifEdRevisionCache(r *Replica) int64 { return r.revisionCache }
 
 // VerifEdMode returns the replica mode (no lock taken: called at quiescence).
 func VerifEdMode(r *Replica) string { return string(r.mode) }
+
+// VerifEdDrain is the drain branch of CreateHoles (played by a managed stub thread in engine E-D's C14conc harness).
+func VerifEdDrain() {
+	drainHoleCreatorChan()
+	types.DrainOps = types.DrainDone
+}
+
+// VerifEdCloseFiles closes the chain files of a replica without any locking or metadata update (harness clean-up
+// outside the scheduler).
+func VerifEdCloseFiles(r *Replica) {
+	for i, f := range r.volume.files {
+		if f != nil && !r.isBackingFile(i) {
+			f.Close()
+		}
+	}
+}
